@@ -155,6 +155,12 @@ func (s *spec) Build(w *engine.World) (sdk.Context, engine.Model) {
 	}
 	p := w.App.OracleKeeper.GetParams(ctx)
 	p.ExpirationBlockCount = s.cfg.Expiration
+	for _, t := range s.cfg.Templates {
+		if t.Script == "concat1long" {
+			// calldata longer than max_report_data_size is legal when max_calldata_size allows it
+			p.MaxCalldataSize = 1024
+		}
+	}
 	if err := w.App.OracleKeeper.SetParams(ctx, p); err != nil {
 		panic(err)
 	}
@@ -191,6 +197,9 @@ func (s *spec) reqMsg(t Template) (*oracletypes.MsgRequestData, uint64, []byte) 
 		sid, calldata = 4, obi.MustEncode(testdata.Wasm4Input{IDs: []int64{1}, Calldata: "x"})
 	case "concat2":
 		sid, calldata = 4, obi.MustEncode(testdata.Wasm4Input{IDs: []int64{1, 2}, Calldata: "x"})
+	case "concat1long":
+		// 600 bytes of calldata: above max_report_data_size (512), below the raised max_calldata_size (1024)
+		sid, calldata = 4, obi.MustEncode(testdata.Wasm4Input{IDs: []int64{1}, Calldata: strings.Repeat("x", 600)})
 	case "wasm1":
 		sid, calldata = 1, []byte("cd")
 	case "noreturn":
@@ -510,7 +519,7 @@ func (s *spec) expectResult(r *mReq, now int64) *oracletypes.Result {
 	status := oracletypes.RESOLVE_STATUS_SUCCESS
 	var out []byte
 	switch r.Tmpl.Script {
-	case "concat1", "concat2":
+	case "concat1", "concat2", "concat1long":
 		ret := ""
 		for _, e := range r.EIDs {
 			for _, c := range r.Chosen {
@@ -542,6 +551,7 @@ func configs(quick bool) []Cfg {
 			{{Script: "concat1", Ask: 2, Min: 1}, {Script: "concat2", Ask: 3, Min: 2}},
 			{{Script: "wasm1", Ask: 3, Min: 3}, {Script: "noreturn", Ask: 1, Min: 1}},
 			{{Script: "trap", Ask: 2, Min: 2}, {Script: "concat1", Ask: 3, Min: 1}},
+			{{Script: "concat1long", Ask: 2, Min: 1}, {Script: "noreturn", Ask: 1, Min: 1}},
 		}
 		// IBC-originated requests whose response packet cannot be sent (one expiration value, lower depth)
 		out = append(out, Cfg{Templates: []Template{{Script: "concat1", Ask: 2, Min: 1, IBC: true}, {Script: "noreturn", Ask: 1, Min: 1, IBC: true}}, MaxReq: 2, Expiration: 2, Depth: 6, Shapes: []string{"ok"}})
@@ -564,6 +574,7 @@ func configs(quick bool) []Cfg {
 		{{Script: "wasm1", Ask: 1, Min: 1}, {Script: "noreturn", Ask: 2, Min: 2}},
 		{{Script: "noreturn", Ask: 2, Min: 1}, {Script: "trap", Ask: 2, Min: 1}},
 		{{Script: "trap", Ask: 3, Min: 2}, {Script: "concat2", Ask: 1, Min: 1}},
+		{{Script: "concat1long", Ask: 3, Min: 2}, {Script: "concat1", Ask: 1, Min: 1}},
 		{{Script: "concat1", Ask: 2, Min: 1, IBC: true}, {Script: "concat1", Ask: 2, Min: 2}},
 		{{Script: "trap", Ask: 2, Min: 2, IBC: true}, {Script: "wasm1", Ask: 3, Min: 1, IBC: true}},
 		{{Script: "noreturn", Ask: 1, Min: 1, IBC: true}, {Script: "concat2", Ask: 3, Min: 2}},
